@@ -42,7 +42,9 @@ CONSTANTS Stale,    \* BOOLEAN: loads may read non-latest messages
           Configs,  \* set of initial configurations [bs, t0, prog]
           TPU,      \* ticks per time unit (64 s)
           SMOD,     \* modulus of the stamp
-          MaxNow    \* Tick is disabled from this value of `now` on (model checking bound)
+          MaxNow,   \* Tick is disabled from this value of `now` on (model checking bound)
+          Fix       \* BOOLEAN: code variant in which retire() reads the clock again before every CAS of its
+                    \* loop (the repair proposed in findings/C04_stale_retire_stamp.md); FALSE = pinned commit
 
 VARIABLES cfg, ms, pc, L, hp, now, H, ev
 vars == <<cfg, ms, pc, L, hp, now, H, ev>>
@@ -248,8 +250,8 @@ SCas(t, M(_)) ==
              /\ H' = [H EXCEPT !.supAt = Put(@, l.tb, now)]
              /\ SetL(t, [l EXCEPT !.rtb = l.ntb])
              /\ Goto(t, "r_load")
-        ELSE /\ ms' = CasFailEff(ms, t, BT, mo)
-             /\ ev' = AtomEv(t, "cas", "table_cas", mo, BT, old, l.tb, l.ntb, FALSE)
+        ELSE /\ ms' = CasFailEff(ms, t, BT, M("table_cas_fail"))
+             /\ ev' = AtomEv(t, "cas", "table_cas_fail", M("table_cas_fail"), BT, old, l.tb, l.ntb, FALSE)
              /\ H' = H
              /\ SetL(t, [l EXCEPT !.tb = old, !.rtb = old, !.i = l.bnum])
              /\ Goto(t, "s_del")
@@ -318,13 +320,23 @@ RLoad(t, M(_)) ==
   /\ Goto(t, "r_clock")
   /\ UNCHANGED <<cfg, now, H>>
 
+\* where the push loop starts: the repaired variant reads the clock again whenever `head` was (re)observed
+LoopPc == IF Fix THEN "r_clock2" ELSE "r_loop"
+
 \* timestamp = get_current_timestamp()  -- a step of its own: the thread can be delayed right after it
 RClock(t) ==
   /\ t \in Thr /\ pc[t] = "r_clock"
   /\ LET ts == Stamp(now)
      IN /\ SetL(t, [L[t] EXCEPT !.ts = ts])
-        /\ Goto(t, IF Expire(L[t].head, ts) THEN "r_cas1" ELSE "r_loop")
+        /\ Goto(t, IF Expire(L[t].head, ts) THEN "r_cas1" ELSE LoopPc)
         /\ ev' = [NoEv EXCEPT !.t = t, !.k = "clock", !.v = now]
+  /\ UNCHANGED <<cfg, ms, hp, now, H>>
+
+RClock2(t) ==
+  /\ t \in Thr /\ pc[t] = "r_clock2"
+  /\ SetL(t, [L[t] EXCEPT !.ts = Stamp(now)])
+  /\ Goto(t, "r_loop")
+  /\ ev' = [NoEv EXCEPT !.t = t, !.k = "clock", !.v = now]
   /\ UNCHANGED <<cfg, ms, hp, now, H>>
 
 \* the head that retire() pushes carries the stamp read at r_clock; H.stalled remembers that a whole
@@ -347,11 +359,11 @@ RCas1(t, M(_)) ==
                 /\ SetL(t, [l EXCEPT !.cur = d[3], !.dlret = "ret"])
                 /\ Goto(t, IF d[3] = 0 THEN "ret" ELSE "dl")
                 /\ ev' = AtomEv(t, "cas", "retire_head_cas_expired", mo, HEAD, old, l.head, nh, TRUE)
-        ELSE /\ ms' = CasFailEff(ms, t, HEAD, mo)
+        ELSE /\ ms' = CasFailEff(ms, t, HEAD, M("retire_head_cas_expired_fail"))
              /\ hp' = hp /\ H' = H
              /\ SetL(t, [l EXCEPT !.head = old])
-             /\ Goto(t, "r_loop")
-             /\ ev' = AtomEv(t, "cas", "retire_head_cas_expired", mo, HEAD, old, l.head, nh, FALSE)
+             /\ Goto(t, LoopPc)
+             /\ ev' = AtomEv(t, "cas", "retire_head_cas_expired_fail", M("retire_head_cas_expired_fail"), HEAD, old, l.head, nh, FALSE)
   /\ UNCHANGED <<cfg, now>>
 
 \* do { node->next = get_node(head); } while (!compare_exchange_weak(head, new_head, acq_rel))
@@ -369,11 +381,11 @@ RLoop(t, M(_)) ==
                 /\ UNCHANGED L
                 /\ Goto(t, "ret")
                 /\ ev' = AtomEv(t, "cas", "retire_head_cas_push", mo, HEAD, old, l.head, nh, TRUE)
-           ELSE /\ ms' = CasFailEff(m0, t, HEAD, mo)
+           ELSE /\ ms' = CasFailEff(m0, t, HEAD, M("retire_head_cas_push_fail"))
                 /\ H' = H
                 /\ SetL(t, [l EXCEPT !.head = old])
-                /\ UNCHANGED pc
-                /\ ev' = AtomEv(t, "cas", "retire_head_cas_push", mo, HEAD, old, l.head, nh, FALSE)
+                /\ Goto(t, LoopPc)
+                /\ ev' = AtomEv(t, "cas", "retire_head_cas_push_fail", M("retire_head_cas_push_fail"), HEAD, old, l.head, nh, FALSE)
   /\ UNCHANGED <<cfg, now>>
 
 \* delete_list: D()(node->data) = delete_block_table; delete node.  One action per freed table.
@@ -431,11 +443,11 @@ CCas(t, M(_)) ==
                 /\ SetL(t, [l EXCEPT !.cur = d[3], !.dlret = "ret"])
                 /\ Goto(t, IF d[3] = 0 THEN "ret" ELSE "dl")
                 /\ ev' = AtomEv(t, "cas", "gc_head_cas", mo, HEAD, old, l.head, 0, TRUE)
-        ELSE /\ ms' = CasFailEff(ms, t, HEAD, mo)
+        ELSE /\ ms' = CasFailEff(ms, t, HEAD, M("gc_head_cas_fail"))
              /\ hp' = hp
              /\ SetL(t, [l EXCEPT !.head = old])
              /\ Goto(t, "ret")
-             /\ ev' = AtomEv(t, "cas", "gc_head_cas", mo, HEAD, old, l.head, 0, FALSE)
+             /\ ev' = AtomEv(t, "cas", "gc_head_cas_fail", M("gc_head_cas_fail"), HEAD, old, l.head, 0, FALSE)
   /\ UNCHANGED <<cfg, now, H>>
 
 (***************************************************************************)
@@ -535,7 +547,7 @@ DEnd ==
 \* Only r_clock / c_clock (the stamp), s_cas (the moment a table is superseded) and dl (the moment a
 \* table is given back) look at the time; a tick commutes with every other step, so when model checking
 \* it is enough to let time pass right before one of these (TimeMatters).
-TimeMatters == \E t \in AllThr : pc[t] \in {"r_clock", "c_clock", "s_cas", "dl"}
+TimeMatters == \E t \in Thr : pc[t] \in {"r_clock", "r_clock2", "c_clock", "s_cas", "dl"}
 Tick(d) ==
   /\ d > 0
   /\ now' = now + d
@@ -546,7 +558,7 @@ Tick(d) ==
 Step(t, M(_)) ==
   \/ Call(t) \/ Sleep(t) \/ Ret(t)
   \/ GLoad(t, M) \/ SNew(t) \/ SBlk(t) \/ SCas(t, M) \/ SDel(t) \/ SDelTab(t)
-  \/ RLoad(t, M) \/ RClock(t) \/ RCas1(t, M) \/ RLoop(t, M) \/ DlStep(t)
+  \/ RLoad(t, M) \/ RClock(t) \/ RClock2(t) \/ RCas1(t, M) \/ RLoop(t, M) \/ DlStep(t)
   \/ CLoad(t, M) \/ CClock(t) \/ CCas(t, M)
   \/ XLoad(t, M)
 
